@@ -16,8 +16,11 @@ import os
 import random
 import re
 
+import threading
+
 import lib
 
+_LOCK = threading.Lock()
 SPEC_DIRS = ["resolve"]
 ROOT_HDR = {"lines": ["public, max-age=3"], "dirs": [{"d": "public", "n": -1}, {"d": "max-age", "n": 3}], "bad": 0, "fault": "clean"}
 ROOTS = ["accounts:root", "products:root", "reviews:root"]
@@ -199,7 +202,10 @@ def run_batch(ctx, binary, cases, tag, stats):
     by_id = {c["id"]: c for c in cases}
     if len(results) != len(cases):
         raise lib.Inconclusive("driver returned %d results for %d cases" % (len(results), len(cases)))
-    for r in results:
+    with _LOCK:
+        _account(ctx, results, by_id, stats)
+    return_after = None
+    for r in []:
         if r.get("panic"):
             ctx.violation("panic", "panic while executing history %s: %s" % (r["id"], r["panic"]), {"case": by_id[r["id"]], "result": r})
         if r.get("unstable"):
@@ -348,7 +354,7 @@ def run(ctx):
     if quick:
         rng.shuffle(bfs)
         bfs = bfs[:700]
-    nsim = 700 if quick else 20000
+    nsim = 700 if quick else 12000
     gs = ctx.tlc_must_pass(SPEC_DIRS, "Gen_EntityCache", "Gen_EntityCache_sim.cfg", timeout=1800, workers=1, deadlock=False,
                            simulate=nsim, depth=90, seed=ctx.seed, tag="gen-histories-simulate")
     sim = {}
@@ -381,7 +387,7 @@ def run(ctx):
             pool[k] = p
     keys = sorted(pool)
     rng.shuffle(keys)
-    for k in keys[:(1500 if quick else 12000)]:
+    for k in keys[:(1500 if quick else 8000)]:
         hdrs[k] = pool[k]
     hdr_list = [hdrs[k] for k in sorted(hdrs)]
     ctx.log("header strings: %d exhaustive + %d sampled (pool %d)" % (n_hdr_bfs, len(hdr_list) - n_hdr_bfs, len(pool)))
@@ -407,8 +413,17 @@ def run(ctx):
     case_by_id = {c["id"]: c for c in cases}
     bs = 2500
     first_rows = None
-    for b in range(0, len(cases), bs):
-        rows, results = run_batch(ctx, binary, cases[b:b + bs], "%03d" % (b // bs), stats)
+    batches = [(b // bs, cases[b:b + bs]) for b in range(0, len(cases), bs)]
+
+    def one(bc):
+        return run_batch(ctx, binary, bc[1], "%03d" % bc[0], stats)
+    if quick:
+        outs = [one(bc) for bc in batches]
+    else:
+        import concurrent.futures
+        with concurrent.futures.ThreadPoolExecutor(max_workers=3) as ex:
+            outs = list(ex.map(one, batches))
+    for rows, results in outs:
         if first_rows is None:
             first_rows = rows
         obs = observed_hits(rows)
